@@ -767,6 +767,12 @@ class PackageGen:
         enums = [t for t in self.pool if isinstance(self.structural(t), tuple) and self.structural(t)[0] == "enum" and t.ns is None]
         if enums and r.chance(0.2):
             return r.choice(enums)
+        if self.cfg.arrays_of_records and r.fork("objarr", len(self.pool)).chance(0.2):
+            # elements that NumPy holds as sub-arrays (fixed vectors / fixed arrays of numbers) or as objects (strings, optionals,
+            # dynamic vectors)
+            k = r.fork("objarr2", len(self.pool))
+            num = Prim(k.choice(["float32", "float64", "uint8", "int16", "int32"]))
+            return k.choice([Vec(num, k.randint(1, 3)), Arr(num, ((None, 2), (None, 2))), Prim("string"), Opt(num), Vec(num)])
         if self.cfg.arrays_of_records and self.generic_pods and r.fork("grecarr", len(self.pool)).chance(0.3):
             k = r.fork("grecarr2", len(self.pool))
             d = k.choice(self.generic_pods)
@@ -912,6 +918,13 @@ class PackageGen:
             self.gen_protocol()
         return self.pkg
 
+    def _fresh_symbol(self, taken, rng):
+        for _ in range(50):
+            n = self.member_names(1)[0]
+            if n not in taken:
+                return n
+        return "sym%d" % (rng.next() % 100000)
+
     def gen_enum(self):
         r = self.rng
         flags = r.chance(0.4)
@@ -935,12 +948,12 @@ class PackageGen:
                 a, b = k.sample([v for v in vals if v], 2) if len([v for v in vals if v]) >= 2 else (vals[-1], vals[-1])
                 if (a | b) not in vals:
                     vals.append(a | b)
-                    syms = syms + self.member_names(1)
+                    syms = syms + [self._fresh_symbol(syms, k)]
             if len(free) >= 2 and k.chance(0.3):
                 # a symbol of several bits none of which has a symbol of its own
                 two = k.sample(free, 2)
                 vals.append((1 << two[0]) | (1 << two[1]))
-                syms = syms + self.member_names(1)
+                syms = syms + [self._fresh_symbol(syms, k)]
         else:
             seen = set()
             while len(vals) < n:
